@@ -79,7 +79,7 @@ class TokenEndpointHelper(object):
             if _exp_in:
                 token.expires_at = utc_time_sans_frac() + _exp_in
 
-        _context.session_manager.set(_context.session_manager.unpack_session_key(session_id), grant)
+        _context.session_manager.set(_context.session_manager.decrypt_session_id(session_id), grant)
 
         return token
 
